@@ -11,6 +11,7 @@ import (
 	"sort"
 	"strings"
 	"sync"
+	"sync/atomic"
 	"time"
 )
 
@@ -128,7 +129,11 @@ func cmdDrive(args []string) {
 	noEvidence := fs.Bool("no-evidence", false, "")
 	replayDir := fs.String("replay-dir", "", "")
 	noMin := fs.Bool("no-minimise", false, "")
+	first := fs.Bool("first", false, "stop the whole batch at the first violation (self-tests and seed evaluation only; implies -no-evidence)")
 	fs.Parse(args)
+	if *first {
+		*noEvidence = true
+	}
 	plan, ok := planFor(*prop, *tier)
 	if !ok {
 		fmt.Fprintf(os.Stderr, "property %s is not decided by this machinery (see MANIFEST.json not_applicable)\n", *prop)
@@ -190,6 +195,9 @@ func cmdDrive(args []string) {
 		if *noMin {
 			common = append(common, "-no-minimise")
 		}
+		if *first {
+			common = append(common, "-first")
+		}
 		for i := 0; i < *jobs; i++ {
 			name := fmt.Sprintf("b%dw%d", bi, i)
 			a := append(append([]string{}, common...), "-shard", fmt.Sprint(i), "-of", fmt.Sprint(*jobs), "-runs", fmt.Sprint(b.runs), "-out", filepath.Join(tmp, name+".json"))
@@ -216,12 +224,21 @@ func cmdDrive(args []string) {
 	if *tier == "thorough" {
 		maxWall = 5 * time.Hour
 	}
+	var found int32 // -first: a worker has reported a violation
+	running := map[string]*exec.Cmd{} // guarded by runMu; never feeds a decision of a run
+	var runMu sync.Mutex
 	for _, j := range jobsList {
+		if *first && atomic.LoadInt32(&found) != 0 {
+			break
+		}
 		wg.Add(1)
 		sem <- struct{}{}
 		go func(j job) {
 			defer wg.Done()
 			defer func() { <-sem }()
+			if *first && atomic.LoadInt32(&found) != 0 {
+				return
+			}
 			cmd := exec.Command(j.bin, j.args...)
 			cmd.Env = append(os.Environ(), j.env...)
 			errf, _ := os.Create(filepath.Join(tmp, j.name+".err"))
@@ -233,6 +250,10 @@ func cmdDrive(args []string) {
 				mu.Unlock()
 				return
 			}
+			runMu.Lock()
+			running[j.name] = cmd
+			runMu.Unlock()
+			defer func() { runMu.Lock(); delete(running, j.name); runMu.Unlock() }()
 			done := make(chan error, 1)
 			go func() { done <- cmd.Wait() }()
 			var werr error
@@ -253,8 +274,21 @@ func cmdDrive(args []string) {
 				}
 			}
 			st, rerr := readStats(filepath.Join(tmp, j.name+".json"))
+			if *first && code == 1 && atomic.CompareAndSwapInt32(&found, 0, 1) {
+				// enough: stop everybody else
+				runMu.Lock()
+				for k, c := range running {
+					if k != j.name {
+						c.Process.Kill()
+					}
+				}
+				runMu.Unlock()
+			}
 			mu.Lock()
 			defer mu.Unlock()
+			if *first && atomic.LoadInt32(&found) != 0 && code != 1 {
+				return // killed (or finished clean) after somebody else found a violation
+			}
 			if code != 0 && code != 1 || rerr != nil {
 				eb, _ := os.ReadFile(filepath.Join(tmp, j.name+".err"))
 				tail := string(eb)
@@ -291,7 +325,7 @@ func cmdDrive(args []string) {
 	case "C07":
 		must = []string{"probe.once_contended", "probe.once_blocked", "probe.preemptions", "probe.mid_init_switch", "cold_start_runs", "fresh_instance_runs", "overlap.parse|parse", "overlap.parse|render", "overlap.render|render", "op.AuxConvert", "op.Convert", "op.ParseRender", "op.PkgConvert", "op.ParseOnly", "op.RenderPre"}
 	}
-	if len(total.Violations) == 0 {
+	if len(total.Violations) == 0 && !*first {
 		for _, k := range must {
 			if total.Counters[k] == 0 {
 				trouble = append(trouble, "workload does not reach "+k+" (probe stuck at zero)")
